@@ -58,7 +58,7 @@ func main() {
 			maxLen, cfg.fullMaskLen, cfg.peekLen, cutLen, cutParts, pairLen, randLen))
 		r.SetExhaustive(true)
 		r.SetExtra("exhaustive_scope", "the small-scope groups (small/*) enumerate their stated bounds completely; the rand/* groups are seeded samples")
-		r.Assume("eq / same arguments are equivalence relations (the doc states reflexive + transitive; the cross-flavour agreement clause needs symmetry too); all generated ones are")
+		r.Assume("Runs: same is only required to be reflexive and transitive; non-symmetric preorders (<=, >=, divides) are judged against the greedy neighbour rule in all three flavours. Compact / CompactFunc: eq / same arguments are equivalence relations (the doc states reflexive + transitive; the cross-flavour agreement clause needs symmetry too); all generated ones are")
 		r.Assume("predicates and conversion functions are pure functions of the item")
 		r.Assume("source pulls are compared after capping at len(source)+1: asking an already ended source again when the consumer asks again requests no item and is not counted against laziness")
 		r.Assume("Runs: in the main check the consumer drains every inner run before calling Next on the outer, as documented. A second check leaves inner runs undrained (0, 1, 2, all-but-one items read; a stream inner is not closed by the consumer) and advances the outer: the library skips the rest of the run itself - existing, intended behaviour of the code although the doc says the inner 'should' be drained - so run heads and run count must still be the reference's. Closing a stream inner early and then advancing is observed, not judged.")
@@ -84,6 +84,7 @@ func main() {
 		}{
 			{"small/chunk", smallChunk},
 			{"small/runs", smallRuns},
+			{"small/runs-preorder", smallRunsPreorder},
 			{"small/filter", smallFilter},
 			{"small/compact", smallCompact},
 			{"small/first", smallFirst},
@@ -119,6 +120,14 @@ func main() {
 			a.flush()
 		})
 		r.Cases("small/equal", N, W, func(c *vkit.Case) { a := newAcc(c); smallEqual(a, sp, c.Index, pairLen); a.flush() })
+
+		// Runs with the divisibility preorder on {1,2,3,4,6,12}: all sequences up to length 5 (thorough 6).
+		divN := divCount(scale(5, 6))
+		r.Cases("small/runs-divides", divN, W, func(c *vkit.Case) {
+			a := newAcc(c)
+			preorderRuns(a, divSeq(c.Index), classFn{"a divides b", divides})
+			a.flush()
+		})
 
 		// Wrap after use (wrap.go): sequences up to length 5, every j.
 		wrapN := sp.offset[6]
@@ -191,6 +200,7 @@ func main() {
 		r.Floor("Next calls after the end checked", r.Table("totals", "Next calls after the end checked"), int64(3*N))
 		r.Floor("regression scenarios D1 (Last, n == 0)", r.Table("regression scenarios", "D1 iterator.Last / stream.Last with n == 0"), 3)
 		r.Floor("regression scenarios: value returned with the end by an outer source", r.Table("regression scenarios", "outer source returns a usable value together with the end (Flatten, FlattenSlices)"), 3)
+		r.Floor("Runs with non-symmetric preorders", r.Table("regression scenarios", "Runs with a non-symmetric preorder (neighbour rule, all three flavours)"), int64(2*N))
 		r.Floor("regression scenarios D2 (xslices.Runs, leading run of length one)", r.Table("regression scenarios", "D2 Runs with a leading run of length one"), 3)
 	})
 }
